@@ -4,6 +4,7 @@
   setters (C01, C05, C11, C15) applies to it.
 -/
 import PjVerif.Lemmas.CloneLemmas
+import PjVerif.Lemmas.WbsSrcC
 namespace Pj
 
 /-- the selection a `clone` / `subtree(roots)` call copies: the roots and their descendants, each once -/
@@ -73,5 +74,24 @@ theorem C10_example :
     r.2.1 = none ∧ cloneHierarchyB s r.1 (s.n + 3) [0, 2, 3] [0] = true ∧ cloneLinksB s r.1 6 [0, 2, 3] = true ∧
     sourceFrameB s r.1 6 = true ∧ outsideFrameB s r.1 6 = true ∧ r.1.preds 9 = [4, 10] := by
   decide +kernel
+
+/-! ### the tie of `WBS` (wbs.py) to the current source, by translation (tools/extract_wbs.py → Extracted/WbsSrc.lean, Lemmas/WbsSrc*.lean);
+    the program of wbs.py is layered over the program of task.py: a call into task.py runs the translated setters of Lemmas/TaskSrc*.lean -/
+
+/-- the translated `WBS.clone` / `WBS.subtree` (with `__clone`, `__clone_tasks` and its closure `link_target`) build, on a reachable
+    state and for roots that are members of the WBS, exactly the model's copy (`cloneWbs` / `cloneSel`): the new WBS object, the store
+    of the model's new state, the allocation pointer.  Source and model differ in three places (dicts keyed by task id vs identity;
+    relations read while the setters run vs from the initial state; the new WBS() made last vs first) - each proved equal on
+    reachable states.  `Task.clone()`, `WBS()` and the copying of a WBS's public attributes are primitives. -/
+theorem C10_source_clone (s : G) (st : PyLite.PState) (hh : st.heap = TaskSrc.encHeap s) (hr : st.reads = s.n) (hi : Inv s) (w : Uid)
+    (hwbs : s.hidden w = true) (F : Nat) (hF : (cloneWbs s w).1.n + 12 ≤ F) :
+    WbsSrc.interpClone F w st = WbsSrc.cloneResult st (cloneWbs s w) :=
+  WbsSrc.interpClone_eq s st hh hr hi w hwbs F hF
+
+theorem C10_source_subtree (s : G) (st : PyLite.PState) (hh : st.heap = TaskSrc.encHeap s) (hr : st.reads = s.n) (hi : Inv s) (w : Uid)
+    (hwbs : s.hidden w = true) (v : PyLite.Val) (roots : List Uid) (hv : TaskSrc.ValueOf v roots)
+    (hm : ∀ r ∈ roots, s.owner r = some w ∧ s.hidden r = false) (F : Nat) (hF : (cloneSel s w roots).1.n + 12 ≤ F) :
+    WbsSrc.interpSubtree F w v st = WbsSrc.cloneResult st (cloneSel s w roots) :=
+  WbsSrc.interpSubtree_eq s st hh hr hi w hwbs v roots hv hm F hF
 
 end Pj
